@@ -1,3 +1,115 @@
-"""E7 self-test harness (filled in later)."""
+"""E7 - self-test harness: checks the checker in both directions.
+
+Every entry of ttsa/mutants/<pid>.py is a textual edit of a scratch copy of the repository's package:
+  breaking edits must make the property check exit 1 with a VIOLATION that mentions the expected rule/instance;
+  benign edits must leave it at exit 0.
+Scratch copies live in a fresh temporary directory (outside /repo and /verif) and are removed afterwards.
+A self-test failure is an analysis error (exit 2), never a property verdict.
+"""
+from __future__ import annotations
+
+import importlib
+import os
+import shutil
+import subprocess
+import sys
+import tempfile
+from concurrent.futures import ThreadPoolExecutor
+
+VERIF = os.path.dirname(os.path.dirname(os.path.abspath(__file__)))
+ALL = [f"C{n:02d}" for n in range(1, 21)]
+
+
+def load(pid):
+    try:
+        mod = importlib.import_module(f"ttsa.mutants.{pid.lower()}")
+    except ImportError:
+        return []
+    return list(getattr(mod, "MUTANTS", []))
+
+
+def apply_edit(root, m):
+    path = os.path.join(root, m["file"])
+    with open(path, encoding="utf-8") as f:
+        src = f.read()
+    cnt = src.count(m["old"])
+    want = m.get("count", 1)
+    if cnt < 1 or (want != "all" and cnt != want):
+        return f"edit does not apply: {cnt} occurrence(s) of the anchor text (expected {want})"
+    src = src.replace(m["old"], m["new"]) if want == "all" or want == cnt else src
+    with open(path, "w", encoding="utf-8") as f:
+        f.write(src)
+    try:
+        compile(src, path, "exec")
+    except SyntaxError as e:
+        return f"edited file does not compile: {e}"
+    return None
+
+
+def run_one(pid, m, repo):
+    tmp = tempfile.mkdtemp(prefix="ttsa_selftest_")
+    try:
+        for sub in ("torchtt", "cpp"):
+            if os.path.isdir(os.path.join(repo, sub)):
+                shutil.copytree(os.path.join(repo, sub), os.path.join(tmp, sub),
+                                ignore=shutil.ignore_patterns("__pycache__"))
+        edits = m["edits"] if "edits" in m else [m]
+        for ed in edits:
+            err = apply_edit(tmp, ed)
+            if err:
+                return m, "stale", err
+        env = dict(os.environ, TTSA_REPO=tmp, TTSA_EVIDENCE_DIR=os.path.join(tmp, "_ev"), PYTHONPATH=VERIF)
+        env.pop("VERIF_TIER", None)
+        p = subprocess.run([sys.executable, "-m", "ttsa", "check", pid, "--tier", "quick"], cwd=VERIF, env=env,
+                           capture_output=True, text=True, timeout=600)
+        out = p.stdout + p.stderr
+        expect = m.get("expect", "violation")
+        if expect == "violation":
+            if p.returncode != 1 or "VIOLATION property=" not in out:
+                return m, "fail", f"expected a violation, got exit {p.returncode}: " + out[-400:].replace("\n", " | ")
+            mention = m.get("mention")
+            if mention and mention not in out:
+                return m, "fail", f"violation reported but does not name `{mention}`: " + out[-600:].replace("\n", " | ")
+            return m, "ok", ""
+        if expect == "error":
+            if p.returncode != 2:
+                return m, "fail", f"expected exit 2, got {p.returncode}"
+            return m, "ok", ""
+        if p.returncode != 0:
+            return m, "fail", f"benign edit must stay clean, got exit {p.returncode}: " + out[-600:].replace("\n", " | ")
+        return m, "ok", ""
+    except subprocess.TimeoutExpired:
+        return m, "fail", "timeout"
+    finally:
+        shutil.rmtree(tmp, ignore_errors=True)
+
+
 def run(pids, jobs=16, reduced=False):
-    return 0
+    repo = os.environ.get("TTSA_REPO", "/repo")
+    pids = pids or ALL
+    work = []
+    for pid in pids:
+        ms = load(pid)
+        if reduced:
+            ms = [m for m in ms if m.get("reduced")] or ms[:2]
+        work += [(pid, m) for m in ms]
+    if not work:
+        print("[ttsa selftest] no mutants registered for", ",".join(pids))
+        return 0
+    bad = 0
+    stale = 0
+    with ThreadPoolExecutor(max_workers=max(1, jobs)) as ex:
+        futs = [ex.submit(run_one, pid, m, repo) for pid, m in work]
+        for (pid, _), fu in zip(work, futs):
+            m, status, msg = fu.result()
+            name = m.get("name", m.get("old", "?")[:40])
+            if status == "ok":
+                continue
+            if status == "stale":
+                stale += 1
+                print(f"[ttsa selftest] {pid} {name}: STALE ({msg})")
+            else:
+                bad += 1
+                print(f"[ttsa selftest] {pid} {name}: FAIL {msg}")
+    print(f"[ttsa selftest] {len(work)} edits over {len(pids)} properties: {len(work) - bad - stale} ok, {bad} failed, {stale} stale")
+    return 2 if bad else 0
